@@ -1,0 +1,65 @@
+//go:build verif
+
+package agent
+
+// Verification hooks for property C34 (usage reports). Add-only accessors,
+// compiled only with the build tag "verif"; no existing behaviour changes.
+// They let an external harness feed cumulative readings into the unexported
+// usageTracker and run the agent's real sendUsageReport body against an
+// OpAMP client supplied by the harness (the same way agent_test.go builds an
+// Agent literal around a mock client).
+
+import (
+	"context"
+	"errors"
+	"time"
+
+	"github.com/honeycombio/refinery/logger"
+	"github.com/jonboulle/clockwork"
+	"github.com/open-telemetry/opamp-go/client"
+)
+
+// VerifUsageCapability is the custom-message capability usage reports are sent under.
+const VerifUsageCapability = sendAgentTelemetryCapability
+
+// VerifUsageSignals lists the usage signals in the order healthCheck samples them.
+var VerifUsageSignals = []string{string(signal_traces), string(signal_logs), string(signal_events_received), string(signal_events_dropped)}
+
+type VerifUsageAgent struct{ a *Agent }
+
+// VerifNewUsageAgent builds an Agent that has exactly the fields
+// sendUsageReport touches: a fresh usage tracker, the given client and clock.
+func VerifNewUsageAgent(c client.OpAMPClient, clock clockwork.Clock) *VerifUsageAgent {
+	ctx, cancel := context.WithCancel(context.Background())
+	return &VerifUsageAgent{a: &Agent{
+		ctx:          ctx,
+		cancel:       cancel,
+		clock:        clock,
+		logger:       Logger{Logger: &logger.NullLogger{}},
+		agentType:    serviceName,
+		agentVersion: "verif",
+		hostname:     "verif-host",
+		opampClient:  c,
+		usageTracker: newUsageTracker(),
+	}}
+}
+
+// Add is usageTracker.Add (what healthCheck calls with a cumulative reading).
+func (v *VerifUsageAgent) Add(signal string, cumulative float64) {
+	v.a.usageTracker.Add(usageSignal(signal), cumulative)
+}
+
+// SendUsageReport is the real Agent.sendUsageReport.
+func (v *VerifUsageAgent) SendUsageReport() error { return v.a.sendUsageReport() }
+
+// NewReport and CompleteSend are the tracker's own methods.
+func (v *VerifUsageAgent) NewReport(now time.Time) ([]byte, error) {
+	return v.a.usageTracker.NewReport(v.a.agentType, v.a.agentVersion, v.a.hostname, now)
+}
+func (v *VerifUsageAgent) CompleteSend() { v.a.usageTracker.completeSend() }
+
+// Cancel cancels the agent's context.
+func (v *VerifUsageAgent) Cancel() { v.a.cancel() }
+
+// VerifIsNoData reports whether err is the tracker's "no data to report".
+func VerifIsNoData(err error) bool { return errors.Is(err, errNoData) }
